@@ -453,6 +453,16 @@ def plane_history(case, ctx):
               opd=case["opd"].copy() if of == "array" else 0.1 * wl0, mask=mask, pixelscale=case["ps"])
     # the arrays the caller handed over (the plane may hold them without copying)
     caller = {"opd": kw["opd"] if of == "array" else None, "amp": kw["amplitude"] if af == "array" else None}
+    # ... as plain arrays, numpy MaskedArrays with flagged samples (data intact) or ndarray subclasses
+    acl_sel = int(case["shape"][0]) + 3 * int(case["shape"][1]) + len(case["steps"])
+    if of == "array":
+        kw["opd"], acls = gen.array_class(kw["opd"], acl_sel)
+        ctx.tag("opd_class:" + acls)
+        if acls != "ndarray":
+            caller["opd"] = None          # (a copy was made: the caller's array is no longer the plane's)
+    if af == "array" and acl_sel % 3 == 0:
+        kw["amplitude"] = gen.array_class(kw["amplitude"], acl_sel + 5)[0]
+        caller["amp"] = None
     with lentil_call("C07.history.build", f"{case['cls']}({case['forms']})"):
         p = lentil.Pupil(focal_length=2.0, **kw) if case["cls"] == "Pupil" else lentil.Plane(**kw)
     done, n_mul, edited_between = [], 0, False
@@ -470,7 +480,7 @@ def plane_history(case, ctx):
             applied = True
             with lentil_call("C07.history.edit", f"{e} after [{' '.join(done)}]"):
                 if e == "set_opd":
-                    p.opd = rng.uniform(-0.3, 0.3, size=shp) * wl0
+                    p.opd = gen.array_class(rng.uniform(-0.3, 0.3, size=shp) * wl0, acl_sel + i)[0]
                 elif e == "set_opd_scalar":
                     p.opd = (0.05 + st_["x"]) * wl0
                 elif e == "set_amp":
